@@ -74,6 +74,8 @@ mod temp_built_in_files;
 mod test_runner;
 mod type_defs;
 mod values;
+#[cfg(wilfred_garden_verif)]
+mod verif_hook;
 mod version;
 mod wrap_in_dbg;
 
@@ -296,6 +298,9 @@ enum CliCommands {
         #[clap(long, default_value = "127.0.0.1")]
         host: String,
     },
+    /// Verification hook server (JSON lines on stdin/stdout).
+    #[cfg(wilfred_garden_verif)]
+    VerifHook,
 }
 
 fn main() {
@@ -704,6 +709,8 @@ fn main() {
             init_tracing();
             nrepl::run_nrepl(&host, port, interrupted);
         }
+        #[cfg(wilfred_garden_verif)]
+        CliCommands::VerifHook => verif_hook::run_hook_server(),
     }
 }
 
